@@ -16,6 +16,11 @@ import math
 import numpy as np
 import torch
 
+# imported here (not lazily) so that the runner's parent process holds the modules before it forks one process per shard
+import deepali.modules  # noqa: F401
+import deepali.spatial  # noqa: F401
+import deepali.spatial.generic  # noqa: F401
+
 from mc.core import Acc, exc_text, guarded, h64, tensor_bytes
 from ref import grid as rg
 from ref import transform as rt
@@ -674,8 +679,16 @@ class System:
                     rel = repr(type(prm).__name__).encode()
                 share = b"D1" if (m is not f and m.__dict__.get("_parameters") is f.__dict__.get("_parameters")) else b"D0"
                 bufs = []
+                current = self.t_current if who == "t" else self.inv_current
                 for name in ("p", "u", "v"):
                     b_ = m.__dict__.get("_buffers", {}).get(name, None)
+                    if name == "p" and b_ is not None and not current:
+                        # The buffer of predicted / linked parameters is only read (tensor(), a linked inverse's update())
+                        # in states where its owner is current; otherwise every use is preceded by update(), which overwrites
+                        # it.  Its content must not enter the key: for callable parameters of the scaling / quaternion /
+                        # homogeneous models it is uninitialised memory (torch.empty) until the first update().
+                        bufs.append(b"p:not-current")
+                        continue
                     bufs.append(name.encode() + (b"-" if b_ is None else tensor_bytes(b_)))
                 extra = repr((getattr(m, "invert", None), getattr(getattr(m, "exp", None), "scale", None), m.__dict__.get("_args"))).encode()
                 parts.append(who.encode() + rel + share + b"|".join(bufs) + extra)
